@@ -96,6 +96,10 @@ def run_case(ctx, name, params):
         s = SurrogateModelEval(p)
         trained0 = True
     p.surrogate = s
+    if kind != "scikit_stub" and r.random() < 0.25:
+        # the public statistics switch is about scores, not about accounting: the counters count whatever it says
+        s.eval_stats = False
+        ctx.count("histories_with_eval_stats_switched_off")
     # training data that is already there (add_data / read_from_data_store before the run): retraining is tied to the number of
     # true evaluations, not to the size of the training set
     preseed = []
